@@ -4,8 +4,11 @@
 //! incl. concat, chains of 2-3 variables whose whole value is another variable — written in every
 //! definition order, in one defvar block or spread over several defvar forms, standing for a
 //! number, a key, a list, a string or the value of another variable —, deftemplate /
-//! template-expand / t! with if-equal, include, platform incl. an inactive-platform decoy,
-//! deflayer -> deflayermap), singly and in random compositions. Required:
+//! template-expand / t! with if-equal, templates with 2-4 parameters written in every parameter
+//! order whose parameters are named like existing variables and whose arguments are, or contain,
+//! references to variables named like another parameter of the same template, include, platform
+//! incl. an inactive-platform decoy, deflayer -> deflayermap), singly and in random compositions.
+//! Required:
 //! the rewritten text is accepted iff the original is; the parsed artefacts agree (mapped keys, key
 //! outputs, overrides, sequences, virtual-key map, options, Debug rendering of every mapped layer
 //! cell); the OS traces on random histories are identical tick by tick.
@@ -21,8 +24,8 @@ use std::collections::BTreeMap;
 pub struct C16Check;
 pub static C16: C16Check = C16Check;
 
-const NK: u64 = 13;
-const KINDS: [&str; NK as usize] = ["alias", "var-action", "var-atom", "var-concat", "var-chain", "var-chain-fwd", "template", "template-if-equal", "template-nested-cond", "template-toplevel-form", "include", "platform", "layermap"];
+const NK: u64 = 15;
+const KINDS: [&str; NK as usize] = ["alias", "var-action", "var-atom", "var-concat", "var-chain", "var-chain-fwd", "template", "template-if-equal", "template-nested-cond", "template-toplevel-form", "template-multi-param", "template-var-args", "include", "platform", "layermap"];
 
 fn profile() -> Profile {
     // kinds whose run-time behaviour crashes on the unchanged tree (C02's findings) or sleeps are left out
@@ -116,30 +119,162 @@ fn is_key_like(a: &str) -> bool {
 /// the positions a variable chain can stand for
 const SITE_CLASSES: [&str; 6] = ["action-list", "plain-list", "key", "number", "string", "var-value"];
 
-/// paths of all action positions: layer cells and alias values (also inside a platform wrapper), then nested
-fn action_sites(forms: &[Node]) -> Vec<Vec<usize>> {
-    let mut out = vec![];
-    fn rec(n: &Node, path: &mut Vec<usize>, out: &mut Vec<Vec<usize>>) {
-        out.push(path.clone());
-        if let Node::List(l) = n {
-            if head(n) == Some("tap-dance") || head(n) == Some("tap-dance-eager") {
-                if let Some(Node::List(items)) = l.get(2) {
-                    for (j, x) in items.iter().enumerate() {
-                        path.push(2);
-                        path.push(j);
-                        rec(x, path, out);
-                        path.pop();
-                        path.pop();
-                    }
+/// `path` and the paths of all action positions nested below the action-position node `n`
+fn action_rec(n: &Node, path: &mut Vec<usize>, out: &mut Vec<Vec<usize>>) {
+    out.push(path.clone());
+    if let Node::List(l) = n {
+        if head(n) == Some("tap-dance") || head(n) == Some("tap-dance-eager") {
+            if let Some(Node::List(items)) = l.get(2) {
+                for (j, x) in items.iter().enumerate() {
+                    path.push(2);
+                    path.push(j);
+                    action_rec(x, path, out);
+                    path.pop();
+                    path.pop();
                 }
             }
-            for i in action_children(n) {
-                path.push(i);
-                rec(&l[i], path, out);
-                path.pop();
+        }
+        for i in action_children(n) {
+            path.push(i);
+            action_rec(&l[i], path, out);
+            path.pop();
+        }
+    }
+}
+
+fn rel_get<'a>(n: &'a Node, path: &[usize]) -> Option<&'a Node> {
+    let mut cur = n;
+    for &i in path {
+        match cur {
+            Node::List(l) => cur = l.get(i)?,
+            _ => return None,
+        }
+    }
+    Some(cur)
+}
+fn rel_get_mut<'a>(n: &'a mut Node, path: &[usize]) -> Option<&'a mut Node> {
+    let mut cur = n;
+    for &i in path {
+        match cur {
+            Node::List(l) => cur = l.get_mut(i)?,
+            _ => return None,
+        }
+    }
+    Some(cur)
+}
+fn map_atoms(n: &mut Node, f: &mut dyn FnMut(&mut String)) {
+    match n {
+        Node::Atom(a) => f(a),
+        Node::List(l) => l.iter_mut().for_each(|x| map_atoms(x, f)),
+    }
+}
+fn prefix_related(a: &[usize], b: &[usize]) -> bool {
+    let n = a.len().min(b.len());
+    a[..n] == b[..n]
+}
+
+/// class of a template argument taken from an action position (anything that can be written there)
+const ARG_ACTION_POS: usize = 99;
+
+/// Everything strictly inside the action list `n` that can be cut out and passed to a template as an argument:
+/// (relative path, class) - nested action positions (class ARG_ACTION_POS: a list, a key, an alias or variable
+/// reference, XX, _ ..) and the timeout numbers, plain lists and strings (SITE_CLASSES index) of `n` and of every
+/// action list nested in it.
+fn extractable(n: &Node) -> Vec<(Vec<usize>, usize)> {
+    let mut sites = vec![];
+    action_rec(n, &mut vec![], &mut sites);
+    let mut out = vec![];
+    for p in sites {
+        let Some(m) = rel_get(n, &p) else { continue };
+        match m {
+            Node::Atom(a) => {
+                if !p.is_empty() && a != "reverse-release-order" {
+                    out.push((p, ARG_ACTION_POS));
+                }
+            }
+            Node::List(_) => {
+                for (cls, idx) in [(1usize, plain_list_children(m)), (3, number_children(m)), (4, string_children(m))] {
+                    for i in idx {
+                        let mut q = p.clone();
+                        q.push(i);
+                        out.push((q, cls));
+                    }
+                }
+                if !p.is_empty() {
+                    out.push((p, ARG_ACTION_POS));
+                }
             }
         }
     }
+    // a push-msg sub-list is both a plain list and (its items) strings: one entry per path
+    out.sort();
+    out.dedup_by(|a, b| a.0 == b.0);
+    out
+}
+
+/// The positions inside a template argument (path [] = the whole argument) at which a variable reference may stand,
+/// with their class (index into SITE_CLASSES). `cls` is the class of the argument itself.
+fn var_positions(arg: &Node, cls: usize) -> Vec<(Vec<usize>, usize)> {
+    if cls != ARG_ACTION_POS {
+        let ok = match (cls, arg) {
+            (1, Node::List(_)) => true,
+            (3, a) => is_number(a),
+            (4, Node::Atom(a)) => !a.starts_with('$') && !a.starts_with('@'),
+            _ => false,
+        };
+        return if ok { vec![(vec![], cls)] } else { vec![] };
+    }
+    let mut sites = vec![];
+    action_rec(arg, &mut vec![], &mut sites);
+    let mut out = vec![];
+    for p in sites {
+        let Some(m) = rel_get(arg, &p) else { continue };
+        match m {
+            Node::Atom(a) => {
+                if is_key_like(a) {
+                    out.push((p, 2));
+                }
+            }
+            Node::List(_) => {
+                for (c, idx) in [(1usize, plain_list_children(m)), (3, number_children(m)), (4, string_children(m))] {
+                    for i in idx {
+                        let mut q = p.clone();
+                        q.push(i);
+                        out.push((q, c));
+                    }
+                }
+                out.push((p, 0));
+            }
+        }
+    }
+    out.sort();
+    out.dedup_by(|a, b| a.0 == b.0);
+    out
+}
+
+/// names of all variables defined anywhere in the configuration
+fn defvar_names(forms: &[Node]) -> Vec<String> {
+    fn rec(n: &Node, out: &mut Vec<String>) {
+        if let Node::List(l) = n {
+            if head(n) == Some("defvar") {
+                for i in (1..l.len()).step_by(2) {
+                    if let Node::Atom(a) = &l[i] {
+                        out.push(a.clone());
+                    }
+                }
+            } else if head(n) == Some("platform") {
+                l.iter().for_each(|x| rec(x, out));
+            }
+        }
+    }
+    let mut out = vec![];
+    forms.iter().for_each(|f| rec(f, &mut out));
+    out
+}
+
+/// paths of all action positions: layer cells and alias values (also inside a platform wrapper), then nested
+fn action_sites(forms: &[Node]) -> Vec<Vec<usize>> {
+    let mut out = vec![];
     fn form(f: &Node, base: Vec<usize>, out: &mut Vec<Vec<usize>>) {
         let Node::List(l) = f else { return };
         let cells: Vec<usize> = match head(f) {
@@ -157,7 +292,7 @@ fn action_sites(forms: &[Node]) -> Vec<Vec<usize>> {
         for i in cells {
             let mut p = base.clone();
             p.push(i);
-            rec(&l[i], &mut p, out);
+            action_rec(&l[i], &mut p, out);
         }
     }
     for (fi, f) in forms.iter().enumerate() {
@@ -626,6 +761,259 @@ impl Rw {
         true
     }
 
+    /// An action list becomes the body of a template with 2-4 parameters, written in a random parameter order.
+    /// Parameters stand for sub-actions, keys, timeout numbers, plain lists and strings cut out of the list (and of
+    /// the action lists nested in it); when the list offers fewer than the wanted number, the rest are guard
+    /// parameters compared in a conditional. Parameters may be named like variables that exist in the configuration,
+    /// in particular like variables that the arguments refer to. `varargs`: (a part of) an argument is moved into a
+    /// new defvar that is named like ANOTHER parameter of the same template (rarely: like its own parameter), so
+    /// the expansion is called with `$<parameter name>` - a variable reference that the expansion must insert as
+    /// written and that is resolved as the variable afterwards.
+    fn template_multi(&mut self, rng: &mut Rng, varargs: bool) -> bool {
+        let forms = self.nodes();
+        let mut cands: Vec<(usize, Vec<usize>)> = vec![];
+        for p in action_sites(&forms) {
+            let Some(n) = sexp::get(&forms, &p) else { continue };
+            if !matches!(n, Node::List(_)) || Self::uses_template(n) || extractable(n).is_empty() {
+                continue;
+            }
+            cands.push((p[0], p));
+        }
+        let mut cands = self.focused(cands);
+        if cands.is_empty() {
+            return false;
+        }
+        let existing = defvar_names(&forms);
+        let refers = |n: &Node| contains_atom(n, &|a| a.strip_prefix('$').map(|v| existing.iter().any(|e| e == v)).unwrap_or(false));
+        // lists that already refer to variables are preferred: their references end up in the arguments
+        if rng.chance(3, 4) {
+            let with_refs: Vec<Vec<usize>> = cands.iter().filter(|p| sexp::get(&forms, p).map(|n| refers(n)).unwrap_or(false)).cloned().collect();
+            if !with_refs.is_empty() {
+                cands = with_refs;
+            }
+        }
+        let site = rng.pick(&cands).clone();
+        let Some(mut body) = sexp::get(&forms, &site).cloned() else { return false };
+        let k = 2 + rng.usize(3);
+        let mut ex = extractable(&body);
+        rng.shuffle(&mut ex);
+        if rng.chance(3, 4) {
+            // stable: the pieces that refer to variables first
+            ex.sort_by_key(|e| !rel_get(&body, &e.0).map(|n| refers(n)).unwrap_or(false));
+        }
+        let mut taken: Vec<(Vec<usize>, usize)> = vec![];
+        for e in ex {
+            if taken.len() == k {
+                break;
+            }
+            if taken.iter().all(|t| !prefix_related(&t.0, &e.0)) {
+                taken.push(e);
+            }
+        }
+        // document order; parameters are numbered in the order of their (first) occurrence in the body, guards last
+        taken.sort();
+        let real = taken.len();
+        let mut names: Vec<String> = (0..k).map(|_| self.fresh("zv")).collect();
+        let mut args: Vec<Node> = vec![];
+        for (b, (path, _)) in taken.iter().enumerate() {
+            let Some(slot) = rel_get_mut(&mut body, path) else { return false };
+            args.push(std::mem::replace(slot, atom(&format!("${}", names[b]))));
+        }
+        for _ in real..k {
+            args.push(atom("yes"));
+        }
+        // order[i] = the parameter written at place i of the parameter list; place[b] = where parameter b is written
+        let mut order: Vec<usize> = (0..k).collect();
+        rng.shuffle(&mut order);
+        let mut place = vec![0usize; k];
+        for (i, &b) in order.iter().enumerate() {
+            place[b] = i;
+        }
+        let mut notes: Vec<String> = vec![format!("tmpl_params:{k}"), format!("tmpl_order:{k}:{}", place.iter().map(|i| i.to_string()).collect::<String>())];
+        if real < k {
+            notes.push("tmpl_with_guard_params".into());
+        }
+        for (_, cls) in &taken {
+            notes.push(format!("tmpl_arg:{}", if *cls == ARG_ACTION_POS { "action-position" } else { SITE_CLASSES[*cls] }));
+        }
+        let occurs = |n: &Node, name: &str| {
+            let r = format!("${name}");
+            contains_atom(n, &|a| a == r)
+        };
+
+        // ---- arguments that are / contain a reference to a variable named like another parameter
+        let mut is_target = vec![false; k];
+        let mut varised = vec![false; k];
+        let mut defs: Vec<(String, Node)> = vec![];
+        if varargs {
+            // a quarter of the parameter names extend another parameter's name
+            if rng.chance(1, 4) {
+                let a = rng.usize(k);
+                let b = (a + 1 + rng.usize(k - 1)) % k;
+                let cand = format!("{}x", names[a]);
+                if !existing.contains(&cand) && !forms.iter().any(|f| occurs(f, &cand)) {
+                    let old = format!("${}", names[b]);
+                    let new = format!("${cand}");
+                    map_atoms(&mut body, &mut |s| {
+                        if *s == old {
+                            *s = new.clone();
+                        }
+                    });
+                    names[b] = cand;
+                    notes.push("tmpl_param_name_extends_another".into());
+                }
+            }
+            let mut bs: Vec<usize> = (0..real).collect();
+            rng.shuffle(&mut bs);
+            for (n_try, b) in bs.into_iter().enumerate() {
+                if n_try > 0 && !defs.is_empty() && rng.chance(1, 3) {
+                    continue;
+                }
+                let positions = var_positions(&args[b], taken[b].1);
+                if positions.is_empty() {
+                    continue;
+                }
+                let mut js: Vec<usize> = (0..k).filter(|&j| !is_target[j] && j != b).collect();
+                if !is_target[b] && rng.chance(1, 10) {
+                    js = vec![b];
+                }
+                if js.is_empty() {
+                    continue;
+                }
+                let j = *rng.pick(&js);
+                // the whole argument, or a piece of an argument that is a list
+                let (whole, inside): (Vec<_>, Vec<_>) = positions.into_iter().partition(|p| p.0.is_empty());
+                let (path, cls) = if inside.is_empty() || (!whole.is_empty() && rng.chance(1, 3)) { whole[0].clone() } else { rng.pick(&inside).clone() };
+                let Some(slot) = rel_get_mut(&mut args[b], &path) else { continue };
+                let inner = std::mem::replace(slot, atom(&format!("${}", names[j])));
+                defs.push((names[j].clone(), inner));
+                is_target[j] = true;
+                varised[b] = true;
+                notes.push(format!("tmpl_vararg_names:{}", if place[j] > place[b] { "later-param" } else if place[j] < place[b] { "earlier-param" } else { "same-param" }));
+                notes.push(format!("tmpl_vararg_at:{}", if path.is_empty() { "whole-argument" } else { "inside-list-argument" }));
+                notes.push(format!("tmpl_vararg_site:{}", SITE_CLASSES[cls]));
+                if j >= real {
+                    notes.push("tmpl_vararg_names_guard_param".into());
+                }
+            }
+            if defs.is_empty() {
+                return false;
+            }
+        }
+        // ---- parameters named like variables that exist already (not those that get a new variable of their name)
+        for b in 0..k {
+            if is_target[b] || !rng.coin() {
+                continue;
+            }
+            let free: Vec<&String> = existing.iter().filter(|v| !names.contains(v) && !defs.iter().any(|d| &d.0 == *v) && !occurs(&body, v)).collect();
+            let in_args: Vec<&String> = free.iter().copied().filter(|v| args.iter().any(|a| occurs(a, v))).collect();
+            let pick = if !in_args.is_empty() {
+                Some((*rng.pick(&in_args)).clone())
+            } else if !free.is_empty() && rng.coin() {
+                Some((*rng.pick(&free)).clone())
+            } else {
+                None
+            };
+            if let Some(v) = pick {
+                let other_arg = (0..k).filter(|&o| o != b && occurs(&args[o], &v)).map(|o| place[o]).collect::<Vec<_>>();
+                if other_arg.iter().any(|&o| o < place[b]) {
+                    notes.push("tmpl_param_named_like_var_in_earlier_argument".into());
+                }
+                if other_arg.iter().any(|&o| o > place[b]) {
+                    notes.push("tmpl_param_named_like_var_in_later_argument".into());
+                }
+                notes.push("tmpl_param_named_like_existing_var".into());
+                let old = format!("${}", names[b]);
+                let new = format!("${v}");
+                map_atoms(&mut body, &mut |s| {
+                    if *s == old {
+                        *s = new.clone();
+                    }
+                });
+                names[b] = v;
+            }
+        }
+        // ---- a parameter standing for an atom replaces the other atoms of the body with the same text, too
+        for b in 0..real {
+            if let (false, Node::Atom(text)) = (varised[b], &args[b]) {
+                // (an argument that is a reference to a variable named like a parameter is not the parameter)
+                let is_placeholder = names.iter().any(|n| text.strip_prefix('$') == Some(n.as_str()));
+                if !is_placeholder && rng.coin() {
+                    let (text, new) = (text.clone(), format!("${}", names[b]));
+                    let mut hit = false;
+                    map_atoms(&mut body, &mut |s| {
+                        if *s == text {
+                            *s = new.clone();
+                            hit = true;
+                        }
+                    });
+                    if hit {
+                        notes.push("tmpl_param_used_repeatedly".into());
+                    }
+                }
+            }
+        }
+        // ---- guard parameters
+        let mut wrappers: Vec<Node> = vec![];
+        for b in real..k {
+            let g = atom(&format!("${}", names[b]));
+            if let (true, Node::List(l)) = (rng.coin(), &mut body) {
+                // a conditional that does not hold, among the items of the action list
+                let mut v = match rng.usize(3) {
+                    0 => vec![atom("if-equal"), g, atom("no")],
+                    1 => vec![atom("if-not-equal"), g, atom("yes")],
+                    _ => vec![atom("if-not-in-list"), g, list(vec![atom("maybe"), atom("yes")])],
+                };
+                v.push(atom("this-is-not-an-action"));
+                let at = 1 + rng.usize(l.len());
+                l.insert(at, list(v));
+            } else {
+                // a conditional that holds, around the action list
+                wrappers.push(list(match rng.usize(3) {
+                    0 => vec![atom("if-equal"), g, atom("yes")],
+                    1 => vec![atom("if-not-equal"), g, atom("no")],
+                    _ => vec![atom("if-in-list"), g, list(vec![atom("maybe"), atom("yes")])],
+                }));
+            }
+        }
+        let mut content = body;
+        for w in wrappers {
+            let Node::List(mut v) = w else { continue };
+            v.push(content);
+            content = list(v);
+        }
+        let tname = self.fresh("zt");
+        let expand = if rng.coin() { "t!" } else { "template-expand" };
+        let mut call = vec![atom(expand), atom(&tname)];
+        call.extend(order.iter().map(|&b| args[b].clone()));
+        let Some(slot) = self.node_mut(&site) else { return false };
+        *slot = list(call);
+        let def = list(vec![atom("deftemplate"), atom(&tname), list(order.iter().map(|&b| atom(&names[b])).collect()), content]);
+        // declared before its use
+        let pos = rng.usize(site[0] + 1);
+        let pos = self.insert(pos, def, rng);
+        self.created_def(pos);
+        // all defvar forms are read before anything that uses them; the position is free
+        if !defs.is_empty() {
+            if defs.len() > 1 && rng.coin() {
+                let mut f = vec![atom("defvar")];
+                for (n, v) in &defs {
+                    f.push(atom(n));
+                    f.push(v.clone());
+                }
+                let at = rng.usize(self.items.len() + 1);
+                self.insert(at, list(f), rng);
+            } else {
+                for (n, v) in &defs {
+                    let at = rng.usize(self.items.len() + 1);
+                    self.insert(at, list(vec![atom("defvar"), atom(n), v.clone()]), rng);
+                }
+            }
+        }
+        self.notes.extend(notes);
+        true
+    }
+
     /// a whole deflayer / defalias item becomes the body of a template (conditionals inside the item's
     /// list) and is put back by a top-level expansion
     fn template_toplevel(&mut self, rng: &mut Rng) -> bool {
@@ -778,6 +1166,8 @@ impl Rw {
             "template-if-equal" => self.template(rng, 1),
             "template-nested-cond" => self.template(rng, 2),
             "template-toplevel-form" => self.template_toplevel(rng),
+            "template-multi-param" => self.template_multi(rng, false),
+            "template-var-args" => self.template_multi(rng, true),
             "include" => self.include(rng),
             "platform" => self.platform(rng),
             "layermap" => self.layermap(rng),
@@ -1032,6 +1422,9 @@ impl Check for C16Check {
                                     if kinds.contains(&"var-chain-fwd") {
                                         out.inc("forward_chain_traces_equal");
                                     }
+                                    if kinds.contains(&"template-var-args") {
+                                        out.inc("template_var_args_traces_equal");
+                                    }
                                     if !sa.trace.is_empty() {
                                         out.inc("nonempty_traces_equal");
                                     }
@@ -1053,13 +1446,14 @@ impl Check for C16Check {
         out
     }
     fn rule(&self) -> String {
-        "case = one grammar-generated configuration (whole action grammar except rpt-any, dynamic macros, on-press/release-delay and chords v2; boundary numbers and deliberately rejected ones included) x up to 3 rewritten variants: one single rewrite, one composition of 2-3 applied to the SAME top-level item (optionally following the definition the previous rewrite created), one free composition of 2-4 (quick) / 2-6 (thorough), drawn from 13 kinds {defalias + @name at an action position of a layer cell or alias value or nested in multi/tap-hold/fork/switch/tap-dance; defvar of a whole action list; defvar of a key atom or timeout number; the same through (concat ..); a chain of 2 or 3 variables (site = $v0, v0 = $v1, [v1 = $v2,] last = the value, with probability 1/4 the value of a key / number written as (concat ..)) standing for a whole action list, a plain list (fork / tap-hold-release-keys / tap-hold-except-keys key list, push-msg sub-list), a key atom, a timeout number, a string (layer name of layer-switch / layer-while-held / layer-toggle / release-layer, virtual-key name of on-press / on-release / on-press-fakekey / on-release-fakekey, push-msg item, unicode character) or the whole value of an existing defvar entry, with every link defined after the variable it names (var-chain: the definitions in one defvar block, one defvar form per link at random places in that relative order, or 2+1 / 1+2; for the value of an existing variable: written into its defvar form directly in front of it); the same chain written in any OTHER definition order (var-chain-fwd: 1 order for length 2, 5 for length 3, so at least one variable's whole value names a variable defined later in the same block or in a later defvar form, possibly in an included file or behind a platform wrapper after composition); deftemplate with the sub-action or number as argument expanded with t!/template-expand; the same guarded by if-equal / if-not-equal with decoy branches; the same with conditionals nested 2-3 deep (if-equal, if-not-equal, if-in-list, if-not-in-list, true and false branches, false branches containing conditionals that would hold) both at the top of the template body and inside the action list; a whole deflayer / defalias item written as a template body with such conditionals inside its list and put back by a top-level expansion; 1-3 consecutive top-level items moved into an included file; items wrapped in (platform (linux) ..) plus an unparsable (platform (win winiov2) ..) decoy; a deflayer rewritten as deflayermap}. The configuration is kept as one flat item list with a file tag per item, so rewrites apply equally inside included files: platform-wrapped items, template definitions and expansions, aliases and variables can be defined in an included file and used in the main file after the include and vice versa. The first 1066 cases are the same for every seed: each kind singly on 30 configurations, then every ordered pair of kinds (169) applied to the same item, once staying on the item and once following the created definition, on 2 configurations each. Compared: accept/reject, mapped keys, key outputs, overrides, sequence trie, virtual-key map, options, layer names, Debug rendering of every mapped layer cell and virtual-key cell of every layer, and the OS trace (tick-exact, redundant releases dropped) + end state on 2 random physically consistent histories with OS repeats and gaps around every configured number. Non-trivial = variant with at least one rewrite applied; distinct = (accept/reject, rewrite kinds, action kinds in the configuration).".into()
+        "case = one grammar-generated configuration (whole action grammar except rpt-any, dynamic macros, on-press/release-delay and chords v2; boundary numbers and deliberately rejected ones included) x up to 3 rewritten variants: one single rewrite, one composition of 2-3 applied to the SAME top-level item (optionally following the definition the previous rewrite created), one free composition of 2-4 (quick) / 2-6 (thorough), drawn from 15 kinds {defalias + @name at an action position of a layer cell or alias value or nested in multi/tap-hold/fork/switch/tap-dance; defvar of a whole action list; defvar of a key atom or timeout number; the same through (concat ..); a chain of 2 or 3 variables (site = $v0, v0 = $v1, [v1 = $v2,] last = the value, with probability 1/4 the value of a key / number written as (concat ..)) standing for a whole action list, a plain list (fork / tap-hold-release-keys / tap-hold-except-keys key list, push-msg sub-list), a key atom, a timeout number, a string (layer name of layer-switch / layer-while-held / layer-toggle / release-layer, virtual-key name of on-press / on-release / on-press-fakekey / on-release-fakekey, push-msg item, unicode character) or the whole value of an existing defvar entry, with every link defined after the variable it names (var-chain: the definitions in one defvar block, one defvar form per link at random places in that relative order, or 2+1 / 1+2; for the value of an existing variable: written into its defvar form directly in front of it); the same chain written in any OTHER definition order (var-chain-fwd: 1 order for length 2, 5 for length 3, so at least one variable's whole value names a variable defined later in the same block or in a later defvar form, possibly in an included file or behind a platform wrapper after composition); deftemplate with the sub-action or number as argument expanded with t!/template-expand; the same guarded by if-equal / if-not-equal with decoy branches; the same with conditionals nested 2-3 deep (if-equal, if-not-equal, if-in-list, if-not-in-list, true and false branches, false branches containing conditionals that would hold) both at the top of the template body and inside the action list; a whole deflayer / defalias item written as a template body with such conditionals inside its list and put back by a top-level expansion; an action list written as a template with 2, 3 or 4 parameters (template-multi-param: the parameters stand for non-overlapping pieces cut out of the list and of the action lists nested in it - sub-actions, keys, alias / variable references, timeout numbers, plain key lists, layer / virtual-key names and other strings -, preferring lists and pieces that already refer to variables; when the list has fewer pieces than parameters the rest are guard parameters passed as 'yes' and compared by if-equal / if-not-equal / if-in-list / if-not-in-list either around the list or in a vanishing conditional among its items; the parameter list is a uniformly random permutation of the order in which the parameters occur in the body, all 2 + 6 + 24 orders; half of the parameters are named like a variable that already exists in the configuration and does not occur in the template body, first choice a variable that one of the ARGUMENTS refers to, so that the expansion is called with $name where name is also a parameter written earlier or later in the parameter list; a parameter standing for an atom also replaces, half of the time, every other atom with the same text in the body); the same where additionally (a piece of) one or more arguments is moved into a new defvar named like ANOTHER parameter of the same template, written before or after it in the parameter list, a guard parameter included (1 in 10: like its own parameter), and the argument becomes / contains $<that parameter name> - whole arguments of every class above and pieces inside list arguments (nested action, key, number, plain list, string), the new variables in one defvar block or separate forms anywhere in the configuration, a quarter of the time with one parameter name extending another one's (zv7, zv7x) (template-var-args); 1-3 consecutive top-level items moved into an included file; items wrapped in (platform (linux) ..) plus an unparsable (platform (win winiov2) ..) decoy; a deflayer rewritten as deflayermap}. The configuration is kept as one flat item list with a file tag per item, so rewrites apply equally inside included files: platform-wrapped items, template definitions and expansions, aliases and variables can be defined in an included file and used in the main file after the include and vice versa. The first 1350 cases are the same for every seed: each kind singly on 30 configurations, then every ordered pair of kinds (225) applied to the same item, once staying on the item and once following the created definition, on 2 configurations each. Compared: accept/reject, mapped keys, key outputs, overrides, sequence trie, virtual-key map, options, layer names, Debug rendering of every mapped layer cell and virtual-key cell of every layer, and the OS trace (tick-exact, redundant releases dropped) + end state on 2 random physically consistent histories with OS repeats and gaps around every configured number. Non-trivial = variant with at least one rewrite applied; distinct = (accept/reject, rewrite kinds, action kinds in the configuration).".into()
     }
     fn assumptions(&self) -> Vec<String> {
         vec![
             "rewrite sites are restricted to places where the guide promises neutrality: aliases and variables only at action positions reachable from deflayer/deflayermap cells and defalias values (not in defvirtualkeys/defchords, not action names, not inside macros or quoted strings); aliases are defined directly before the item that uses them (a value inside a defalias item that refers, directly or through a variable/template, to an alias of the same item is not hoisted); templates are declared before their use and never nested in each other; include is applied to whole top-level items of the main file only (no nested includes), platform wraps exactly one item and is not nested in platform".into(),
             "variables standing for atoms are only used for alphanumeric key names, timeout numbers and (chain rewrites only) the free-form string / name positions listed in rule(); never for action names, never in defcfg / defsrc / deflocalkeys, never inside macros".into(),
             "forward references between variables: the guide says a variable's value 'will be substituted wherever the variable is used', that the label 'can be used in the rest of the configuration', and that 'variables are allowed to refer to previously defined variables'; it does not say that naming a later variable is an error. All defvar forms are collected before anything that uses them is parsed and substitution happens at the use site, so a variable whose WHOLE value is $other is judged transparent in every definition order (var-chain-fwd). Because the guide's sentence literally promises only the backward order, violations that need a forward chain carry their own labels (':var-chain-fwd', 'x>var-chain-fwd', 'composed-with-var-chain-fwd') and never share a signature with the order the guide's example uses (var-chain). (concat ..) is documented to produce its string where it is written, so it only ever appears as the LAST link of a chain, with literal parts, never with a reference to a later variable".into(),
+            "template arguments: the guide says that within the template content the $names of the template variables 'will be substituted with the expression passed into template-expand', that expansion happens 'before any other parsing', that variables of defvar 'are not substituted when used inside of template-expand', and its example 5 passes $a as an argument and gets the text $a inserted; an argument is therefore taken to be inserted exactly as written (all parameters at once, an inserted argument is not looked at again), and a $name inside an argument is afterwards an ordinary reference to the variable of that name - also when a parameter of the same template has that name (the unchanged tree does exactly this). Parameters are never named like a variable that the template BODY refers to (that would be shadowing, which the guide does not define), variable references in arguments only stand where the variable rewrites may put them (action positions outside macros, timeout numbers, plain key lists, name / string positions), arguments of guard parameters are literal atoms because the conditionals compare text, and templates are still never nested in each other".into(),
             "configurations whose Debug rendering is not a function of the text (two parses of the original differ) are compared on everything except the cell rendering".into(),
             "actions known to crash or sleep at run time on the unchanged tree (rpt-any, dynamic macros, on-press-delay, chords v2 with use-defsrc) are not generated".into(),
         ]
@@ -1106,6 +1500,68 @@ impl Check for C16Check {
             ("applied:template-if-equal", 300),
             ("applied:template-nested-cond", 300),
             ("applied:template-toplevel-form", 300),
+            ("applied:template-multi-param", 300),
+            ("applied:template-var-args", 300),
+            // templates with 2 / 3 / 4 parameters, accepted on both sides (i.e. really expanded), in every parameter order
+            ("accepted_tmpl_params:2", 1000),
+            ("accepted_tmpl_params:3", 1000),
+            ("accepted_tmpl_params:4", 1000),
+            ("accepted_tmpl_order:2:01", 500),
+            ("accepted_tmpl_order:2:10", 500),
+            ("accepted_tmpl_order:3:012", 150),
+            ("accepted_tmpl_order:3:021", 150),
+            ("accepted_tmpl_order:3:102", 150),
+            ("accepted_tmpl_order:3:120", 150),
+            ("accepted_tmpl_order:3:201", 150),
+            ("accepted_tmpl_order:3:210", 150),
+            ("accepted_tmpl_order:4:0123", 30),
+            ("accepted_tmpl_order:4:0132", 30),
+            ("accepted_tmpl_order:4:0213", 30),
+            ("accepted_tmpl_order:4:0231", 30),
+            ("accepted_tmpl_order:4:0312", 30),
+            ("accepted_tmpl_order:4:0321", 30),
+            ("accepted_tmpl_order:4:1023", 30),
+            ("accepted_tmpl_order:4:1032", 30),
+            ("accepted_tmpl_order:4:1203", 30),
+            ("accepted_tmpl_order:4:1230", 30),
+            ("accepted_tmpl_order:4:1302", 30),
+            ("accepted_tmpl_order:4:1320", 30),
+            ("accepted_tmpl_order:4:2013", 30),
+            ("accepted_tmpl_order:4:2031", 30),
+            ("accepted_tmpl_order:4:2103", 30),
+            ("accepted_tmpl_order:4:2130", 30),
+            ("accepted_tmpl_order:4:2301", 30),
+            ("accepted_tmpl_order:4:2310", 30),
+            ("accepted_tmpl_order:4:3012", 30),
+            ("accepted_tmpl_order:4:3021", 30),
+            ("accepted_tmpl_order:4:3102", 30),
+            ("accepted_tmpl_order:4:3120", 30),
+            ("accepted_tmpl_order:4:3201", 30),
+            ("accepted_tmpl_order:4:3210", 30),
+            ("accepted_tmpl_arg:action-position", 2000),
+            ("accepted_tmpl_arg:number", 1000),
+            ("accepted_tmpl_arg:plain-list", 200),
+            ("accepted_tmpl_arg:string", 1000),
+            ("accepted_tmpl_with_guard_params", 2000),
+            // parameters named like variables that exist, among them variables an argument at an earlier / later place refers to
+            ("accepted_tmpl_param_named_like_existing_var", 400),
+            ("accepted_tmpl_param_named_like_var_in_earlier_argument", 25),
+            ("accepted_tmpl_param_named_like_var_in_later_argument", 25),
+            ("accepted_tmpl_param_used_repeatedly", 30),
+            ("accepted_tmpl_param_name_extends_another", 300),
+            // arguments that are / contain a reference to a variable named like another parameter of the same template
+            ("accepted_tmpl_vararg_names:later-param", 1000),
+            ("accepted_tmpl_vararg_names:earlier-param", 1000),
+            ("accepted_tmpl_vararg_names:same-param", 150),
+            ("accepted_tmpl_vararg_names_guard_param", 800),
+            ("accepted_tmpl_vararg_at:whole-argument", 2000),
+            ("accepted_tmpl_vararg_at:inside-list-argument", 100),
+            ("accepted_tmpl_vararg_site:action-list", 300),
+            ("accepted_tmpl_vararg_site:key", 200),
+            ("accepted_tmpl_vararg_site:number", 500),
+            ("accepted_tmpl_vararg_site:plain-list", 100),
+            ("accepted_tmpl_vararg_site:string", 600),
+            ("template_var_args_traces_equal", 1000),
             ("pairs_on_same_item", 400),
             ("applied:include", 300),
             ("applied:platform", 300),
